@@ -14,6 +14,7 @@ import (
 	"strings"
 	"testing"
 	"testing/synctest"
+	"time"
 
 	"github.com/modelcontextprotocol/go-sdk/internal/verifx"
 )
@@ -45,6 +46,7 @@ func c08Ops() []c08Op {
 		ops = append(ops, c08Op{kind: "resume", k: k, name: fmt.Sprintf("client resumes with the id of event #%d", k)})
 	}
 	ops = append(ops, c08Op{kind: "resume2", name: "a second, concurrent resume with the latest id"})
+	ops = append(ops, c08Op{kind: "ping", name: "server sends a request of its own (ping) on the stream"})
 	ops = append(ops, c08Op{kind: "fresh", name: "client opens the standalone stream anew, without Last-Event-ID"})
 	ops = append(ops, c08Op{kind: "purge", name: "memory pressure: the event store evicts what it can"})
 	ops = append(ops, c08Op{kind: "resume-broken", k: 0, name: "client resumes with the id of event #0 over a connection that breaks after the first replayed event"})
@@ -97,6 +99,13 @@ func c08InBubble(o c08Opts, ops []c08Op, hist []int) verifx.SearchResult {
 		for cmd := range cmds {
 			if cmd == "respond" {
 				break
+			}
+			if cmd == "ping" {
+				// a request of the server's, issued while handling the call: it travels on the call's stream
+				// like the notifications (nobody answers it here; it is abandoned after a minute)
+				pctx, pcancel := context.WithTimeout(ctx, time.Minute)
+				go func() { defer pcancel(); r.Session.Ping(pctx, nil) }()
+				continue
 			}
 			n++
 			r.Session.NotifyProgress(ctx, &ProgressNotificationParams{ProgressToken: "tok", Progress: float64(n), Message: fmt.Sprintf("note %d", n)})
@@ -207,6 +216,7 @@ func c08InBubble(o c08Opts, ops []c08Op, hist []int) verifx.SearchResult {
 		return ""
 	}
 	writes := 0
+	pings := 0
 	purges := 0
 	responded := false
 	var attached *c08Exchange = first
@@ -293,6 +303,18 @@ func c08InBubble(o c08Opts, ops []c08Op, hist []int) verifx.SearchResult {
 				responded = true
 			}
 			obs = "write"
+		case "ping":
+			if responded || pings >= 1 {
+				return verifx.SearchResult{Skip: true}
+			}
+			pings++
+			if o.standalone {
+				pctx, pcancel := context.WithTimeout(ctx, time.Minute)
+				go func() { defer pcancel(); sess.Ping(pctx, nil) }()
+			} else {
+				cmds <- "ping"
+			}
+			obs = "ping"
 		case "purge":
 			if !o.purge || purges >= 2 {
 				return verifx.SearchResult{Skip: true}
@@ -439,7 +461,7 @@ func c08InBubble(o c08Opts, ops []c08Op, hist []int) verifx.SearchResult {
 	if attached != nil && !attached.ended && !attached.cut {
 		att = fmt.Sprintf("attached@%d", attached.startIdx)
 	}
-	return verifx.SearchResult{Key: fmt.Sprintf("appended=%d responded=%v %s writes=%d purges=%d last=%s", len(gt), responded, att, writes, purges, obs), Obs: obs}
+	return verifx.SearchResult{Key: fmt.Sprintf("appended=%d responded=%v %s writes=%d pings=%d purges=%d last=%s", len(gt), responded, att, writes, pings, purges, obs), Obs: obs}
 }
 
 func TestVerifC08(t *testing.T) {
